@@ -88,7 +88,8 @@ def write_crate(src, backend):
                 'quantities = { path = "%s", default-features = false, features = [%s] }\nqty-macros = { path = "%s/qty-macros" }\n\n[workspace]\n\n'
                 '[lints.rust]\nunexpected_cfgs = { level = "allow" }\n' % (common.REPO, feats, common.REPO))
     import shutil
-    shutil.copy(os.path.join(common.REPO, "Cargo.lock"), os.path.join(d, "Cargo.lock"))
+    if os.path.exists(os.path.join(common.REPO, "Cargo.lock")):
+        shutil.copy(os.path.join(common.REPO, "Cargo.lock"), os.path.join(d, "Cargo.lock"))
     os.makedirs(os.path.join(d, "src"), exist_ok=True)
     with open(os.path.join(d, "src", "lib.rs"), "w") as f:
         f.write("#![allow(unused, non_snake_case, non_camel_case_types)]\n" + src)
